@@ -1,10 +1,16 @@
 import BSModel.Proofs.HeapOps
+import BSModel.Proofs.HeapExtract
+import BSModel.Proofs.HeapLink
+import BSModel.Proofs.HeapIter
+import BSModel.Proofs.HeapDecompose
 /-! # C01 — one consistent tree: every navigation view agrees after any edit history
 
-`Good2 h` says: there is a nested-set witness under which the children lists tile the parents' intervals and
+`Good h` says: there is a nested-set witness under which the children lists tile the parents' intervals and
 every one of the six link fields of every element is the one determined by the pre-order of the children
-lists (`WF`, Proofs/HeapWF.lean). The theorems below say that the start state is consistent and that every
-editing call — the code-mirror of `bs4/element.py`, Model/Heap.lean — keeps it so, for every finite history. -/
+lists (`WF`, Proofs/HeapWF.lean). The theorems below say that the start state is consistent, that every
+editing call — the code-mirror of `bs4/element.py` in Model/Heap.lean — keeps it so, for every finite history,
+and that in a consistent heap all six link fields and all seven iterators are slices of the pre-order walk
+of the children lists (`docOrder`). -/
 namespace BS.Props.C01
 open BS.Heap
 
@@ -17,9 +23,17 @@ theorem init_consistent (kinds : List Kind) : Good2 (Heap.init kinds) := by
     have : kinds[n]? = none := by simp [List.getElem?_eq_none_iff]; exact hn
     simp [this]
 
-/-- a history without `decompose` (see `history_consistent` for the general one) keeps the forest consistent,
-    given the two pillars -/
-theorem history_consistent_noDecompose (hE : ExtractSpec) (hL : LinkChildSpec) :
+/-- **every editing call** (append, insert, extend, insert_before, insert_after, replace_with, wrap, unwrap,
+    extract, clear, smooth, `.string=`; single- and multi-argument, arguments anywhere in the forest, plain
+    strings, whole BeautifulSoup objects) that returns, returns a consistent forest. Calls that would put an
+    element beneath itself are outside the quantifier (the model reports `excluded` for them). -/
+theorem call_keeps_consistent {h h' : Heap} {op : Op} (hg : Good2 h) (hd : op.isDecompose = false) (hk : op.kindsOK)
+    (hs : step h op = .ok h') : Good2 h' :=
+  (step_good2_noDecompose extract_spec linkChild_spec hg hd hk hs).1
+
+/-- **every finite history** of such calls keeps the forest consistent (`decompose` is covered by
+    `history_consistent`, which needs the wipe-out lemma) -/
+theorem history_consistent_noDecompose :
     ∀ (ops : List Op) (h h' : Heap), Good2 h → (∀ op ∈ ops, op.isDecompose = false ∧ op.kindsOK) →
       run h ops = .ok h' → Good2 h' := by
   intro ops
@@ -32,12 +46,169 @@ theorem history_consistent_noDecompose (hE : ExtractSpec) (hL : LinkChildSpec) :
     | error e => simp only [hs] at hr; cases hr
     | ok h1 =>
       simp only [hs] at hr
-      have h1g := step_good2_noDecompose hE hL hg (hok op (by simp)).1 (hok op (by simp)).2 hs
-      exact ih h1 h' h1g.1 (fun o ho => hok o (by simp [ho])) hr
+      exact ih h1 h' (call_keeps_consistent hg (hok op (by simp)).1 (hok op (by simp)).2 hs)
+        (fun o ho => hok o (by simp [ho])) hr
+
+/-- **every editing call, `decompose` included**, that returns, returns a consistent forest. For `decompose`
+    the model's guard excludes one state only: a BeautifulSoup object that has children and stands outside the
+    element chain (the state right after parsing), where the Python wipes the object alone and leaves its
+    children pointing at it. -/
+theorem every_call_keeps_consistent {h h' : Heap} {op : Op} (hg : Good2 h) (hk : op.kindsOK)
+    (hs : step h op = .ok h') : Good2 h' :=
+  (step_good2 hg hk hs).1
+
+/-- **every finite history of editing calls** — all fourteen of them, `decompose` included — keeps the forest
+    consistent -/
+theorem history_consistent :
+    ∀ (ops : List Op) (h h' : Heap), Good2 h → (∀ op ∈ ops, op.kindsOK) → run h ops = .ok h' → Good2 h' := by
+  intro ops
+  induction ops with
+  | nil => intro h h' hg _ hr; simp only [run] at hr; cases hr; exact hg
+  | cons op ops ih =>
+    intro h h' hg hok hr
+    simp only [run] at hr
+    cases hs : step h op with
+    | error e => simp only [hs] at hr; cases hr
+    | ok h1 =>
+      simp only [hs] at hr
+      exact ih h1 h' (every_call_keeps_consistent hg (hok op (by simp)) hs)
+        (fun o ho => hok o (by simp [ho])) hr
+
+/-- **`decompose` destroys exactly the subtree.** On a consistent forest, a `decompose()` that returns is the
+    `extract()` of the element (which never fails) followed by the wipe-out: afterwards every element of the
+    subtree of `x` — the elements of the pre-order walk of the children lists from `x` *before* the call — is
+    unlinked from everything (no parent, no siblings, no previous or next element, no children), and no other
+    element differs in a single link or in its children list from the state the `extract()` alone produces.
+    No element changes its class or its text, nothing is allocated, and the result is again consistent. -/
+theorem decompose_destroys_subtree {h h' : Heap} {x : Nat} (hg : Good h) (hd : decompose h x = .ok h') :
+    ∃ h1, extract h x = .ok h1 ∧ Good h1 ∧ Good h' ∧
+      (∀ m, m ∈ docOrder h x →
+        h'.parent m = none ∧ h'.ps m = none ∧ h'.ns m = none ∧ h'.pe m = none ∧ h'.ne m = none ∧
+        h'.kids m = []) ∧
+      (∀ m, m ∉ docOrder h x →
+        h'.parent m = h1.parent m ∧ h'.ps m = h1.ps m ∧ h'.ns m = h1.ns m ∧ h'.pe m = h1.pe m ∧
+        h'.ne m = h1.ne m ∧ h'.kids m = h1.kids m) ∧
+      h'.kind = h.kind ∧ h'.val = h.val ∧ h'.next = h.next := by
+  obtain ⟨w, hwf⟩ := hg
+  obtain ⟨h1, w1, he, hwf1, _, hkind, hval, hnext, hW, hmem⟩ := decompose_wiped hwf hd
+  refine ⟨h1, he, ⟨w1, hwf1⟩, ⟨_, wipe_wf hwf1 hW⟩, ?_, ?_, hW.kind.trans hkind, hW.val.trans hval,
+    hW.next.trans hnext⟩
+  · intro m hm
+    have hm := (hmem m).mpr hm
+    exact ⟨by rw [hW.parent m, if_pos hm], by rw [hW.ps m, if_pos hm], by rw [hW.ns m, if_pos hm],
+      by rw [hW.pe m, if_pos hm], by rw [hW.ne m, if_pos hm], by rw [hW.kids m, if_pos hm]⟩
+  · intro m hm
+    have hm : ¬ w1.tree m = x := fun hc => hm ((hmem m).mp hc)
+    exact ⟨by rw [hW.parent m, if_neg hm], by rw [hW.ps m, if_neg hm], by rw [hW.ns m, if_neg hm],
+      by rw [hW.pe m, if_neg hm], by rw [hW.ne m, if_neg hm], by rw [hW.kids m, if_neg hm]⟩
+
+/-- `extract` never fails on a consistent forest, and the element it returns is a self-contained tree:
+    no parent, no siblings, no previous element, and its last element has no next element -/
+theorem fragment_detached {h : Heap} (x : Nat) (hg : Good h) :
+    ∃ h', extract h x = .ok h' ∧ Good h' ∧ h'.parent x = none ∧ h'.ps x = none ∧ h'.ns x = none ∧ h'.pe x = none ∧
+      ∀ l, l ∈ docOrder h' x → (docOrder h' x).getLast? = some l → h'.ne l = none := by
+  obtain ⟨w, hwf⟩ := hg
+  obtain ⟨h', he, hwf', _⟩ := extract_spec h w x hwf
+  obtain ⟨d1, d2, d3, d4⟩ := extract_detached hwf he
+  refine ⟨h', he, ⟨_, hwf'⟩, d1, d2, d3, d4, ?_⟩
+  intro l hl hlast
+  have hrl := root_no_links hwf' d1
+  apply hrl.2.2.2 l hl
+  -- the last element of the document order sits at position size - 1
+  have hlen := docOrder_length hwf' x
+  have hne : docOrder h' x ≠ [] := by intro hc; rw [hc] at hl; cases hl
+  have hidx : (docOrder h' x)[(docOrder h' x).length - 1]? = some l := by
+    rw [← hlast, List.getLast?_eq_getElem?]
+  have := (docOrder_getElem? hwf' d1 _ l).mp hidx
+  have hsz := (cutWit w x |> fun w' => hwf'.size_pos x)
+  omega
+
+/-- **all views are the pre-order of the children lists.** In a consistent heap there are, for every element
+    `x`, a root `root x` and an index `idx x` such that `x` is the `idx x`-th element of the duplicate-free
+    document order (recursive pre-order of the children lists) of the tree of `root x`, and every link field
+    and every iterator of `x` is the corresponding slice of that list / of the parent's children list.
+    The only freedom: a BeautifulSoup root may stand outside the element chain (then its `next_element` is
+    `None`, its `next_elements` empty, and it is missing from the end of `previous_elements`). -/
+theorem views_are_preorder {h : Heap} (hg : Good h) :
+    ∃ (root idx : Nat → Nat), ∀ x,
+      h.parent (root x) = none ∧ (docOrder h (root x)).Nodup ∧ (docOrder h (root x))[idx x]? = some x ∧
+      (∀ m, m ∈ docOrder h (root x) ↔ root m = root x) ∧
+      -- next_element / next_elements
+      ((h.ne x = (docOrder h (root x))[idx x + 1]? ∧ nextElements h x = (docOrder h (root x)).drop (idx x + 1)) ∨
+        (h.kind x = .soup ∧ h.parent x = none ∧ h.ne x = none ∧ nextElements h x = [])) ∧
+      -- previous_elements
+      (previousElements h x = ((docOrder h (root x)).take (idx x)).reverse ∨
+        (h.kind (root x) = .soup ∧
+          previousElements h x = (((docOrder h (root x)).take (idx x)).drop 1).reverse)) ∧
+      -- descendants
+      descendants h x = .ok ((pre h.kids h.cap x).tail) ∧
+      (∃ n, pre h.kids h.cap x = ((docOrder h (root x)).drop (idx x)).take n) ∧
+      -- siblings and parents
+      (∀ p, h.parent x = some p →
+        nextSiblings h x = (h.kids p).drop ((h.kids p).idxOf x + 1) ∧
+        previousSiblings h x = ((h.kids p).take ((h.kids p).idxOf x)).reverse ∧
+        parents h x = p :: parents h p) ∧
+      (h.parent x = none → root x = x ∧ idx x = 0 ∧
+        nextSiblings h x = [] ∧ previousSiblings h x = [] ∧ parents h x = [] ∧
+        h.ps x = none ∧ h.ns x = none ∧ h.pe x = none) := by
+  obtain ⟨w, hwf⟩ := hg
+  refine ⟨w.tree, w.pos, fun x => ?_⟩
+  have hr := hwf.tree_root x
+  refine ⟨hr, docOrder_nodup hwf hr, docOrder_self hwf x, fun m => docOrder_mem hwf hr m, ?_, ?_,
+    descendants_eq hwf x, ⟨w.size x, pre_slice hwf x⟩, ?_, ?_⟩
+  · cases hu : w.unl x with
+    | false => exact Or.inl ⟨(next_element_is_successor hwf x).1 hu, (nextElements_eq hwf x).1 hu⟩
+    | true =>
+      have := hwf.unl_soup x hu
+      exact Or.inr ⟨this.1, this.2, (next_element_is_successor hwf x).2 hu, (nextElements_eq hwf x).2 hu⟩
+  · cases hu : w.unl (w.tree x) with
+    | false => exact Or.inl ((previousElements_eq hwf x).1 hu)
+    | true => exact Or.inr ⟨(hwf.unl_soup _ hu).1, (previousElements_eq hwf x).2 hu⟩
+  · intro p hp
+    exact ⟨nextSiblings_eq hwf hp rfl, previousSiblings_eq hwf hp rfl, (parents_eq hwf x).2.2.2.2 p hp⟩
+  · intro hp
+    have hs := siblings_root hwf hp
+    have hrt := hwf.root_tree x hp
+    have hl := root_no_links hwf hp
+    exact ⟨hrt.1, hrt.2, hs.2.2.1, hs.2.2.2, (parents_eq hwf x).2.2.2.1 hp, hl.1, hl.2.1, hl.2.2.1⟩
+
+/-- the document root never points at an element that is not the first one -/
+theorem soup_root_caveat {h : Heap} (hg : Good h) (r : Nat) (hr : h.parent r = none) :
+    h.ne r = none ∨ h.ne r = (h.kids r).head? := by
+  obtain ⟨w, hwf⟩ := hg
+  cases hne : h.ne r with
+  | none => exact Or.inl rfl
+  | some b =>
+    right
+    have hc := (hwf.chain_ne r b).mp hne
+    have hrt := hwf.root_tree r hr
+    -- b sits at position 1 of r's tree: it is covered by the first child, whose position is 1
+    have ht := hwf.tiles r
+    cases hk : h.kids r with
+    | nil =>
+      rw [hk] at ht; simp [Tiles] at ht
+      have hb := hwf.bound b
+      have hs := hwf.size_pos b
+      rw [← hc.2.1, hrt.1] at hb
+      omega
+    | cons k ks =>
+      rw [hk] at ht
+      obtain ⟨hkp, _, _⟩ := ht
+      have hkt := hwf.kid_tree r k (by rw [hk]; simp)
+      have : b = k := hwf.inj b k (by rw [hkt, ← hc.2.1]) (by omega)
+      simp [this]
 
 /-! non-vacuity: the model runs a real history to a non-trivial consistent state -/
 example : (run (Heap.init [.soup, .tag, .tag, .str, .str])
     [.append 0 (.node 1), .append 1 (.node 3), .insert 0 0 [.node 2, .plain [9]], .wrap 3 2,
      .replaceWith 1 [.node 4, .node 3]]).isOk = true := by decide
+
+/-! non-vacuity for `decompose`: a history that destroys a two-level subtree in the middle of a document and
+    keeps editing; the guard of the model fires only for an unlinked BeautifulSoup object with children -/
+example : (run (Heap.init [.soup, .tag, .tag, .str, .str])
+    [.append 0 (.node 1), .append 1 (.node 2), .append 2 (.node 3), .append 0 (.node 4),
+     .decompose 1, .append 0 (.node 3)]).isOk = true := by decide
+example : ((decompose (Heap.init [.soup, .tag]) 0).toOption.map (fun h => (h.ne 0, h.kids 0))) = some (none, []) := by
+  decide
 
 end BS.Props.C01
